@@ -77,8 +77,11 @@ func (r *Run) Races() []string {
 	if r.race == nil {
 		return nil
 	}
-	out := make([]string, 0, len(r.race.order))
-	for _, k := range r.race.order {
+	// sorted by the (site, site) key: the list must not depend on map iteration order
+	keys := append([]string(nil), r.race.order...)
+	sort.Strings(keys)
+	out := make([]string, 0, len(keys))
+	for _, k := range keys {
 		out = append(out, r.race.reports[k])
 	}
 	return out
@@ -309,7 +312,13 @@ func (r *Run) access(addr uintptr, site string, write bool) {
 		rs.report(w, "write", me, kindOf(write))
 	}
 	if write {
-		for _, rd := range sh.reads {
+		tasks := make([]int, 0, len(sh.reads))
+		for k := range sh.reads {
+			tasks = append(tasks, k)
+		}
+		sort.Ints(tasks)
+		for _, k := range tasks {
+			rd := sh.reads[k]
 			if rd.task != ti && rd.clock > v[rd.task] {
 				rs.report(rd, "read", me, "write")
 			}
